@@ -72,7 +72,7 @@ def resolve(fq: str):
     raise ImportError(fq)
 
 
-PLAIN_SNAPSHOT = {"MemoryWorkflowStore", "_ControlLoopRunner", "FakeAdapter"}
+PLAIN_SNAPSHOT = {"MemoryWorkflowStore", "_ControlLoopRunner", "FakeAdapter", "_ServerInternalRunAdapter"}
 
 
 def safe_deepcopy(x, _depth=0):
